@@ -259,6 +259,10 @@ def rule_once(ctx: Ctx) -> None:
             "arguments (and thereby all dependencies) are resolved before execution", "_execute_func is reachable without _get_func_args", "_get_func_args call not found", key="deps-first")
     stores = stores_into(ctx, run_, memo_p)
     upd = {n for n in (cfg.node_containing(x) for x, _chain in stores) if n is not None}
+    # a loop over the names of the output that stores each of them is a storing step as a whole (the zero-iteration path of a
+    # loop over a tuple of output names is not a path on which "nothing was stored" matters)
+    for lp in [x for x in ast.walk(run_.node) if isinstance(x, ast.For) and any(any(y is sx for y in ast.walk(x)) for sx, _c in stores)]:
+        upd.add(cfg.node(lp))
     ok = bool(upd) and cfg.must_pass(exe[0], EXIT, upd, normal_only=True)
     wp = None if ok else cfg.witness_path(exe[0], EXIT, upd)
     ctx.add("2-once", run_, cfg.stmt[exe[0]], ok, "every normal path from the execution stores the result in the memo" if ok else "a path from _execute_func to the return never stores the result in the memo `all_results` (the function would run again)", key="memo-store",
